@@ -254,6 +254,8 @@ func kindType(kind string) model.TypeOfDatatype {
 		return model.TypeOfDatatype_COUNTER
 	case "map":
 		return model.TypeOfDatatype_MAP
+	case "doc":
+		return model.TypeOfDatatype_DOCUMENT
 	}
 	return model.TypeOfDatatype_LIST
 }
@@ -334,6 +336,8 @@ func (r *run) body(evs []Ev) {
 		r.rpub = rc.SubscribeCounter("k", nil)
 	case model.TypeOfDatatype_MAP:
 		r.rpub = rc.SubscribeMap("k", nil)
+	case model.TypeOfDatatype_DOCUMENT:
+		r.rpub = rc.SubscribeDocument("k", nil)
 	default:
 		r.rpub = rc.SubscribeList("k", nil)
 	}
@@ -422,6 +426,11 @@ func (r *run) call(tid int, e Ev, client orda.Client, rrecv *int) {
 	case "lget":
 		_, err := r.pub.(orda.List).Get(0)
 		h.failed = err != nil
+	case "dput":
+		_, err := r.pub.(orda.Document).PutToObject(e.K, e.V)
+		h.failed = err != nil
+	case "dget":
+		h.out = kernel.Canon(r.pub.(orda.Document).GetValue())
 	case "tx":
 		var net int32
 		body := func(do func(b Ev)) error {
@@ -633,7 +642,7 @@ func clip(s string) string {
 
 // linearizable checks the recorded call history against the plain structure (porcupine).
 func (r *run) linearizable() {
-	if r.cfg.Kind == "list" {
+	if r.cfg.Kind == "list" || r.cfg.Kind == "doc" {
 		return
 	}
 	var ops []porcupine.Operation
